@@ -32,7 +32,85 @@ pub fn clean_input(buffer: &str) -> String {
     Helper function to determine if we are out of time for our search
 */
 pub fn out_of_time(start: Instant, time_to_move_ms: u128) -> bool {
+    #[cfg(walleye_verif)]
+    if let Some(expired) = verif::clock_tick() {
+        return expired;
+    }
     Instant::now().duration_since(start).as_millis() >= time_to_move_ms
+}
+
+/*
+    Verification hooks, compiled only with --cfg walleye_verif
+
+    A per-thread virtual clock for out_of_time, a capture buffer for the lines
+    sent to the GUI and a log of the move orders chosen by the search
+*/
+#[cfg(walleye_verif)]
+pub mod verif {
+    use std::cell::RefCell;
+
+    pub struct State {
+        pub clock_armed: bool,
+        pub consulted: u64,
+        pub expiry: u64,
+        pub lines: Option<Vec<String>>,
+        pub orders: Option<Vec<Vec<String>>>,
+    }
+
+    thread_local! {
+        pub static STATE: RefCell<State> = RefCell::new(State {
+            clock_armed: false,
+            consulted: 0,
+            expiry: u64::MAX,
+            lines: None,
+            orders: None,
+        });
+    }
+
+    // the n-th consultation (counted from 0) reports expiry iff n >= expiry
+    pub fn clock_tick() -> Option<bool> {
+        STATE.with(|s| {
+            let mut s = s.borrow_mut();
+            if !s.clock_armed {
+                return None;
+            }
+            let n = s.consulted;
+            s.consulted += 1;
+            Some(n >= s.expiry)
+        })
+    }
+
+    // returns true if the line was captured instead of printed
+    pub fn capture_line(line: &str) -> bool {
+        STATE.with(|s| {
+            let mut s = s.borrow_mut();
+            match &mut s.lines {
+                Some(lines) => {
+                    lines.push(line.to_string());
+                    true
+                }
+                None => false,
+            }
+        })
+    }
+
+    pub fn log_order(moves: &[crate::board::BoardState]) {
+        STATE.with(|s| {
+            let mut s = s.borrow_mut();
+            if let Some(orders) = &mut s.orders {
+                orders.push(
+                    moves
+                        .iter()
+                        .map(|m| match (m.last_move, m.pawn_promotion) {
+                            (Some((a, b)), Some(p)) => format!("{}{}{}", a, b, p.kind.alg()),
+                            (Some((a, b)), None) => format!("{}{}", a, b),
+                            _ => "none".to_string(),
+                        })
+                        .collect(),
+                );
+            }
+        })
+    }
 }
 
 #[cfg(test)]
